@@ -29,8 +29,17 @@ be woken.  ``Event.wait`` with a zero/past deadline on a set event may complete 
 ("will either return or raise immediately").  A deadline that fired at exactly the instant of a later
 notify/set is decided (timed out), a notify/set before the clock reaches the deadline is decided (woken).
 
-Sensitivity (quick tier, seed 1, scratch copy of /repo/tornado/locks.py):
-  to be filled in.
+Sensitivity (quick tier, seed 1, scratch copy of /repo/tornado/locks.py; all caught):
+  M1  Condition.notify counts done (timed-out/cancelled) waiters against n  -> C34.cond_notify_missed_live_waiter
+  M2  Event.set does not guard fut.done()                                   -> crash.InvalidStateError@locks.py:set
+  M3  Condition.wait on_timeout resolves True                               -> C34.cond_spurious_wakeup
+  M4  Condition.notify pops the newest waiter (LIFO)                        -> C34.cond_notify_missed_live_waiter
+  M5  Event.wait does not remove finished futures from _waiters             -> C34.event_residue
+  M6  _garbage_collect keeps the done waiters and drops the live ones       -> C34.cond_notify_missed_live_waiter
+  M7  Event.wait(timeout) does not cancel the inner future on timeout       -> C34.event_residue
+  M8  Event.set sets the flag only when somebody waits                      -> C34.event_is_set
+  M9  Event.clear wakes the waiters                                         -> C34.event_wait_completed_without_set
+  M10 Condition.notify_all notifies one waiter too few when >2 are queued   -> C34.cond_notify_missed_live_waiter
 """
 import gc
 import itertools
@@ -44,7 +53,7 @@ from vlib import primhist as ph
 from vlib import vtime
 
 PROPERTY = "C34"
-READY = False
+READY = True
 RULE = (
     "Hypothesis op-list histories (<=30 ops) for Condition {wait with no/absolute/timedelta/zero/past deadline, "
     "notify(0..4), notify(), notify_all, cancel, advance, jump (clock moves, loop does not run), single loop step, "
@@ -52,7 +61,7 @@ RULE = (
     "cancel, advance, jump, step, calls without settling}, with tie blocks that put a deadline and a notify/set at "
     "the same instant in both orders; plus exhaustive enumeration of all sequences of length <=L over 7 condition "
     "ops {wait, wait_t1, notify(1), notify(2), notify_all, cancel_oldest, tick} and 6 event ops {wait, wait_t1, "
-    "set, set without settling, clear without settling, tick} (L=5 quick, 7 thorough) and a fixed family around "
+    "set, set without settling, clear without settling, tick} (L=5 quick; thorough: 6 condition, 7 event) and a fixed family around "
     "the clean-up threshold; non-trivial = a notify/set is issued while >=1 timed-out (or cancelled) and >=1 live "
     "waiter are queued; distinct = SHA-1 of the case"
 )
@@ -67,8 +76,8 @@ ASSUMPTIONS = [
 ]
 TECHNIQUE = "property-based testing (Hypothesis) + bounded exhaustive enumeration: operation histories against a sequential reference model on a virtual clock"
 LEVEL_TEXT = (
-    "bounded model-based exploration: every sequence of <=5 (thorough: <=7) basic operations is checked "
-    "exhaustively for both classes; richer histories (all documented deadline forms, ties, cancellation, "
+    "bounded model-based exploration: every sequence of <=5 (thorough: <=6 condition, <=7 event) basic operations "
+    "is checked exhaustively; richer histories (all documented deadline forms, ties, cancellation, "
     "clean-up threshold, residue) are sampled (1.5k quick / 100k thorough, <=30 ops); nothing is claimed beyond "
     "those lengths"
 )
@@ -637,8 +646,8 @@ COND_ALPHABET = [("wait", None), ("wait", ("abs", 1.0)), ("notify", 1), ("notify
 EVENT_ALPHABET = [("wait", None), ("wait", ("abs", 1.0)), ("set",), ("ns", ("set",)), ("ns", ("clear",)), ("adv", 1.0)]
 
 
-def grid_cases(maxlen):
-    for cls, alphabet in (("condition", COND_ALPHABET), ("event", EVENT_ALPHABET)):
+def grid_cases(cond_len, event_len):
+    for cls, alphabet, maxlen in (("condition", COND_ALPHABET, cond_len), ("event", EVENT_ALPHABET, event_len)):
         for n in range(1, maxlen + 1):
             for seq in itertools.product(alphabet, repeat=n):
                 yield {"cls": cls, "ops": list(seq)}
@@ -667,4 +676,4 @@ def main(ctx):
     ctx.run_replays(PARTS)
     ctx.explore(case_s, run_case, ctx.n(1500, 100000), name="main")
     ctx.enumerate(gc_cases(), run_case, name="gc")
-    ctx.enumerate(grid_cases(7 if ctx.thorough else 5), run_case, name="grid")
+    ctx.enumerate(grid_cases(6, 7) if ctx.thorough else grid_cases(5, 5), run_case, name="grid")
